@@ -636,7 +636,7 @@ def exhaustive_stage(rep, broken, exe, tier):
     total = sum(v['op_lines'] for d_ in table.values() for k_, v in d_.items() if k_.startswith('kind'))
     rep.cov['evaluations'] += total
     rep.cov['traces_validated_against_impl'] += total if dexe and not any('correspondence (exhaustive' in b_ for b_ in broken) else 0
-    rep.cov['exhaustive'] = table
+    rep.cov['exhaustive_depths'] = table      # ('exhaustive' is a boolean in the evidence schema)
     rep.cov['exhaustive_wall_s'] = round(time.time() - t0, 1)
     # ---- required coverage: every wrapper kind was seen doing every operation with every outcome
     miss = [c for c in required_cells() if cells.get(c, 0) == 0]
